@@ -21,8 +21,12 @@ Each change was written by a fresh sub-agent that saw only the text of the prope
 what the anchored functions DEPEND on: caches, backends, glue, defaults, constructors outside the anchored files); the coordinator re-ran
 the demonstration (fails with the patch, passes without: `tools/takeseed.sh`) and the check against a fresh worktree of
 HEAD with the patch, using a private copy of /verif (`tools/reseed.sh`). %d changes are kept; every one is reported as
-VIOLATION now (C17-1 and C18-1 only on the tree they were written for: their patches no longer apply to the repaired
-code). %d of them were MISSED by the version of the check that existed when they arrived (%s) and %d were at first reported
+VIOLATION now, with these qualifications: C17-1 and C18-1 only on the tree they were written for (their patches no longer
+apply to the repaired code); C02-4 is an executor change that C02's check leaves to C16's, which reports it (code 4);
+C17-6 led to the repair C17-m, after which the seeded change no longer breaks the property and is reported as
+`no-failing-input-found` (a behavioural difference); C16-1, C16-3 and C02-4 were rebased onto the repairs C16-b/c
+(originals kept as `patch_orig.diff`). Several round-7/8 changes are also caught by a neighbouring property's check;
+the 'caught by' column says which. %d of them were MISSED by the version of the check that existed when they arrived (%s) and %d were at first reported
 only as `no-failing-input-found` (%s); each miss led to a strengthening of model, theorems, generator, monitor or
 translator for the whole CLASS of change, described in the "caught by" column.
 
